@@ -185,6 +185,10 @@ def check_roundtrip(chk, fails, dis, stats):
             ty, s = go["txMeta"]["k"]
             if ty != c["type"]:
                 fails.append((c, go, m, ["variable of type %s holds a %s" % (c["type"], ty)]))
+            if ty in ("string", "asset", "account") and s != c["text"]:
+                fails.append((c, go, m, ["%s variable given the text %r holds %r" % (ty, c["text"], s)]))
+            if ty == "number" and s != str(int(c["text"])):
+                fails.append((c, go, m, ["number variable given the text %r holds %r" % (c["text"], s)]))
             if go["accMeta"]["acc"]["k"] != s:
                 fails.append((c, go, m, ["account metadata text %r differs from the value's text %r" % (go["accMeta"]["acc"]["k"], s)]))
             if ty in ("number", "portion", "monetary") and o.get("json") != '"%s"' % s:
